@@ -762,6 +762,7 @@ def rule_ranges(ctx):
         for combo in itertools.product(*[dom[k] for k in keys]):
             env = dict(zip(keys, combo))
             out, both = outcomes(g, fi.node, env, ao)
+            out = {x for x, t in out}
             exp = {"raise"} if spec(env) else {"pass"}
             if out != exp:
                 bad = (env, out, exp, both)
